@@ -1,7 +1,8 @@
 open Model
 open Main_common
 
-let pol_of = function "Block" -> PBlock | "Discard" -> PDiscard | "DiscardOldest" -> PDiscardOldest | s -> failwith ("policy " ^ s)
+let strip_l s = if String.length s > 2 && String.sub s (String.length s - 2) 2 = "+L" then String.sub s 0 (String.length s - 2) else s
+let pol_of s = match strip_l s with "Block" -> PBlock | "Discard" -> PDiscard | "DiscardOldest" -> PDiscardOldest | s -> failwith ("policy " ^ s)
 
 let run (line : string) : string =
   match fields line with
